@@ -160,7 +160,7 @@ pub fn run_history_at(tr: &mut Trace, c: &Conc, f: &TestFile, with_idx: bool, co
     tr.run(json!({"ev": "reset", "kind": "reader", "n": n, "withIdx": with_idx, "complete": complete,
                   "equalSizes": equal, "t": f.t, "hist": hist, "prop": prop, "byPath": by_path.is_some()}));
     if let Some(dir) = by_path {
-        let p = dir.join("r.shp");
+        let p = crate::cmd_codec::path_variant(dir, "r", hist.len() + n);
         std::fs::write(&p, &f.shp).unwrap();
         std::fs::write(p.with_extension("dbf"), &f.dbf).unwrap();
         if with_idx {
